@@ -1,6 +1,6 @@
 (* C05 Invalid input is refused, with the matching error, however it is spelled *)
 Load "coq/props/Hdr".
-From PM Require Import Lemmas Segs C05 C05b C08rel.
+From PM Require Import Lemmas Segs C05 C05b C08rel Final.
 Lemma src_rt : rt_ok cfg. Proof. apply conds_rt_ok. vm_compute. reflexivity. Qed.
 Lemma src_tbl : tbl_ok cfg. Proof. apply conds_tbl_ok. vm_compute. reflexivity. Qed.
 Lemma src_cfg_ok : cfg_ok cfg. Proof. exact (rt_cfg _ src_rt). Qed.
@@ -69,3 +69,31 @@ Print Assumptions C05_unsupported_type.
 Theorem C05_maven_needs_namespace : forall p, maven_ns_missing cfg (p_ns p) = true -> build cfg P Maven p = Err (PMissing FNamespace).
 Proof. intros p H. unfold build. cbn [sh_finish ptype_shape pt_finish]. rewrite H. reflexivity. Qed.
 Print Assumptions C05_maven_needs_namespace.
+(* the remaining "when that defect is the only one" corollaries: qualifiers, namespace, name; and build() decides when everything before it is fine *)
+Theorem C05_qualifiers_error : forall (T E : Type) (sh : shape T E) r e, WFr cfg r -> (exists d, oget (r_sub r) decode_subpath = Ok d) ->
+  (match r_q r with Some qs => decode_quals cfg (split c_amp qs) [] | None => Ok [] end) = Err e -> parse cfg sh (asm r) = Err (sh_inj sh e).
+Proof. intros T E sh r e. apply C05_only_quals. exact src_cfg_ok. Qed.
+Print Assumptions C05_qualifiers_error.
+Theorem C05_namespace_error : forall (T E : Type) (sh : shape T E) r e, WFr cfg r -> (exists d, oget (r_sub r) decode_subpath = Ok d) ->
+  (exists d, (match r_q r with Some qs => decode_quals cfg (split c_amp qs) [] | None => Ok [] end) = Ok d) ->
+  (exists t, sh_from_str sh (r_ty r) = Ok t) -> (exists d, oget (r_ver r) decode = Ok d) ->
+  oget (r_ns r) decode_namespace = Err e -> parse cfg sh (asm r) = Err (sh_inj sh e).
+Proof. intros T E sh r e. apply C05_only_namespace. exact src_cfg_ok. Qed.
+Print Assumptions C05_namespace_error.
+Theorem C05_name_error : forall (T E : Type) (sh : shape T E) r e, WFr cfg r -> (exists d, oget (r_sub r) decode_subpath = Ok d) ->
+  (exists d, (match r_q r with Some qs => decode_quals cfg (split c_amp qs) [] | None => Ok [] end) = Ok d) ->
+  (exists t, sh_from_str sh (r_ty r) = Ok t) -> (exists d, oget (r_ver r) decode = Ok d) -> (exists d, oget (r_ns r) decode_namespace = Ok d) ->
+  decode (r_name r) = Err e -> parse cfg sh (asm r) = Err (sh_inj sh e).
+Proof. intros T E sh r e. apply C05_only_name. exact src_cfg_ok. Qed.
+Print Assumptions C05_name_error.
+Theorem C05_then_build_decides : forall (T E : Type) (sh : shape T E) r sub q t ver ns name, WFr cfg r -> oget (r_sub r) decode_subpath = Ok sub ->
+  (match r_q r with Some qs => decode_quals cfg (split c_amp qs) [] | None => Ok [] end) = Ok q ->
+  sh_from_str sh (r_ty r) = Ok t -> oget (r_ver r) decode = Ok ver -> oget (r_ns r) decode_namespace = Ok ns -> decode (r_name r) = Ok name ->
+  parse cfg sh (asm r) = build cfg sh t {| p_ns := ns; p_name := name; p_ver := ver; p_quals := q; p_sub := sub |}.
+Proof. intros T E sh r sub q t ver ns name. apply C05_only_build. exact src_cfg_ok. Qed.
+Print Assumptions C05_then_build_decides.
+(* build() refuses an empty name and a malformed checksum, and nothing else, after the hook *)
+Theorem C05_build_refusals : forall (T E : Type) (sh : shape T E) t p, (exists x, build cfg sh t p = Ok x) <->
+  exists t1 p1, sh_finish sh t p = Ok (t1, p1) /\ p_name p1 <> [] /\ cs_well_formed cfg (p_quals p1).
+Proof. intros T E sh t p. apply build_succeeds_iff. sc. Qed.
+Print Assumptions C05_build_refusals.
